@@ -1007,3 +1007,49 @@ Proof.
   destruct (Z.ltb_spec i 0); [lia|]. destruct (Z.leb_spec 4294967295 i); [lia|].
   destruct (list_eqb Z.eqb (int_text i) p) eqn:E; [|lia]. split; [now apply zlist_eqb_eq|lia].
 Qed.
+
+(* ------------------------------------------------------------------ *)
+(* index properties of String objects (15.5.5.2) *)
+From Otto Require Import C09.SpecObj C09.ModelObj.
+
+Lemma char_prop_out : forall u k, zlen u <= k \/ k < 0 -> char_prop (Some u) k = None.
+Proof.
+  intros u k H. unfold char_prop.
+  destruct (Z.leb_spec 0 k); destruct (Z.ltb_spec k (zlen u)); cbn [andb]; try reflexivity; lia.
+Qed.
+
+(* at or beyond the length a String object behaves as an ordinary object: the property map alone answers *)
+Theorem own_get_beyond : forall u st k, zlen u <= k \/ k < 0 ->
+  own_get u st LS k = lookup k (m_s st).
+Proof.
+  intros u st k H. unfold own_get. cbn [map_of text_of]. destruct (lookup k (m_s st)); [reflexivity|].
+  now apply char_prop_out.
+Qed.
+
+(* below the length the code unit is a read-only, enumerable, permanent own property *)
+Theorem own_get_inrange : forall u st k, 0 <= k < zlen u -> lookup k (m_s st) = None ->
+  own_get u st LS k = Some (PData (PStr [unit_at u k]) false true false).
+Proof.
+  intros u st k H L. unfold own_get. cbn [map_of text_of]. rewrite L. unfold char_prop.
+  destruct (Z.leb_spec 0 k); destruct (Z.ltb_spec k (zlen u)); cbn [andb]; try reflexivity; lia.
+Qed.
+
+(* so an assignment to it is refused and a delete fails, in every state *)
+Theorem inrange_write_refused : forall u st k v, 0 <= k < zlen u -> lookup k (m_s st) = None ->
+  put u st LS k v = st /\ delete u st LS k = (st, false).
+Proof.
+  intros u st k v H L. unfold put, delete. rewrite (own_get_inrange u st k H L). split; reflexivity.
+Qed.
+
+(* otto's defineProperty is the ES5 one for every index at or beyond the length (and on the prototypes) *)
+Theorem define_beyond_refines : forall u st l k d,
+  (l = LS -> zlen u <= k \/ k < 0) ->
+  define_model u st l k d = define_spec u st l k d.
+Proof.
+  intros u st l k d H. unfold define_model, define_spec. destruct (lookup k (map_of st l)); [reflexivity|].
+  destruct l; cbn [text_of].
+  - rewrite char_prop_out by (now apply H). reflexivity.
+  - unfold char_prop. change (zlen []) with 0.
+    destruct (Z.leb_spec 0 k); destruct (Z.ltb_spec k 0); cbn [andb]; try reflexivity; lia.
+  - reflexivity.
+Qed.
